@@ -5,6 +5,7 @@ import (
 	"log/slog"
 	"path/filepath"
 	"regexp"
+	"strings"
 
 	"github.com/Dash-Industry-Forum/livesim2/pkg/cmaf"
 )
@@ -41,12 +42,25 @@ func (s stream) id() string {
 	return fmt.Sprintf("%s/%s", s.chName, s.trName)
 }
 
+// insideName tells that a channel or track name taken from a URL stays below the directory it is joined to.
+func insideName(name string) bool {
+	for _, part := range strings.Split(name, "/") {
+		if part == "." || part == ".." {
+			return false
+		}
+	}
+	return !strings.Contains(name, "\\")
+}
+
 func matchMPD(path string) (chName string, ok bool) {
 	matches := mpdRegexp.FindStringSubmatch(path)
 	if len(matches) == 0 {
 		return "", false
 	}
 	chName = matches[1]
+	if !insideName(chName) {
+		return "", false
+	}
 	return filepath.Join(chName), true
 }
 
@@ -68,6 +82,9 @@ func findStreamMatch(storagePath, path string) (stream, bool) {
 	}
 	if len(matches) == 0 {
 		return str, false
+	}
+	if !insideName(str.chName) || !insideName(str.trName) { // uploads are stored below storage/, whatever the URL says
+		return stream{}, false
 	}
 	str.mediaType, err = cmaf.ContentTypeFromCMAFExtension(str.ext)
 	if err != nil {
